@@ -36,6 +36,7 @@ type Item struct {
 	Ch     byte
 	Raw    []byte
 	Claim  types.BlockID
+	Held   bool // some honest node holds it (and would gossip it on)
 	seq    int
 }
 
@@ -69,15 +70,16 @@ type blockRef struct {
 }
 
 type Pool struct {
-	items  []*Item
-	byID   map[string]*Item
-	byH    map[int64][]*Item
-	blocks map[int64][]*blockRef // complete blocks known per height
-	partsN map[string]int        // parts-header key -> number of parts in pool
+	items    []*Item
+	byID     map[string]*Item
+	byH      map[int64][]*Item
+	blocks   map[int64][]*blockRef // complete blocks known per height
+	partsN   map[string]int        // parts-header key -> number of parts in pool
+	heldSets map[string]bool
 }
 
 func newPool() *Pool {
-	return &Pool{byID: map[string]*Item{}, byH: map[int64][]*Item{}, blocks: map[int64][]*blockRef{}, partsN: map[string]int{}}
+	return &Pool{byID: map[string]*Item{}, byH: map[int64][]*Item{}, blocks: map[int64][]*blockRef{}, partsN: map[string]int{}, heldSets: map[string]bool{}}
 }
 
 func shortHash(parts ...[]byte) string {
@@ -142,11 +144,16 @@ func (p *Pool) AddPartSet(h int64, ps *types.PartSet, signer int, byz bool) {
 		return
 	}
 	psh := ps.Header()
-	if p.partsN[string(psh.Hash)] >= psh.Total {
+	if p.partsN[string(psh.Hash)] >= psh.Total && (byz || p.heldSets[string(psh.Hash)]) {
 		return
 	}
+	if !byz {
+		p.heldSets[string(psh.Hash)] = true
+	}
 	for i := 0; i < ps.Total(); i++ {
-		p.AddPart(h, psh, ps.GetPart(i), signer, byz, "")
+		if it := p.AddPart(h, psh, ps.GetPart(i), signer, byz, ""); it != nil && !byz {
+			it.Held = true
+		}
 	}
 	var n int
 	var err error
